@@ -21,7 +21,7 @@ The property has two halves.
 Only statements live here; proofs are in Proofs/{Sanitize,Toposort}.lean.
 -/
 import CueVerif.Proofs.Sanitize
-import CueVerif.Proofs.Toposort
+import CueVerif.Proofs.ToposortIndep
 namespace CueVerif.C02
 open CueVerif CueVerif.Sanitize CueVerif.Toposort
 
@@ -114,7 +114,8 @@ theorem C02_toposort_ok (fixed : Bool) (S : SortFn) (hS : S.Contract) (g : Graph
     ∃ l, sortWith fixed S g comps = .ok l ∧ l.Perm g.nodes :=
   Toposort.sortWith_ok fixed S hS g comps hg hc
 
-/-- The order respects every precedence edge that is not on a cycle. -/
+/-- The order respects every precedence edge that is not on a cycle: if `u → v` is an edge
+and `u` is not reachable back from `v`, then `u` comes before `v`. -/
 theorem C02_toposort_sound (fixed : Bool) (S : SortFn) (hS : S.Contract) (g : Graph) (comps : List Comp)
     (hg : g.WF) (hc : IsSCC g comps) (l : List Label) (hl : sortWith fixed S g comps = .ok l)
     (u v : Label) (hu : u ∈ g.nodes) (huv : v ∈ g.out u) (hacyc : ¬ Reach g v u) :
@@ -146,8 +147,15 @@ theorem C02_toposort_perm_partial (fixed : Bool) (S S' : SortFn) (hS : S.Contrac
   Toposort.sortWith_indep fixed S S' hS hS' g g' comps comps' hg hg' hsame hc hc' hd
 
 /-- With the one-line repair (`fixed = true`: a tie on the string is broken by the feature
-type) the full statement holds. -/
+type) the comparison tells ALL labels apart, the excluded region is empty and the full
+statement holds. -/
 theorem C02_toposort_perm_fixed : C02_toposort_perm_stmt true := Toposort.perm_fixed
+
+/-- The comparisons `Graph.Sort` sorts with are total preorders (the precondition of
+`slices.SortFunc`), with and without the repair. -/
+theorem C02_toposort_cmp_preorder (fixed : Bool) :
+    TotalPreorder (cmpLabel fixed) ∧ TotalPreorder (cmpComp fixed) :=
+  ⟨Toposort.cmpLabel_tp fixed, Toposort.cmpComp_tp fixed⟩
 
 /-- OPEN (believed true, classical; mechanising Tarjan's algorithm is out of budget): the
 transcription of scc.go computes the strongly connected components.  Tied instead by
